@@ -58,7 +58,7 @@ CHECKS["C01"] = {
             "pause-twice}: Before and After run exactly once per ticking cycle, the gate is entered once per resume and completes once, nothing runs "
             "after a throw, a captured throw (try_except_) does not disturb later cycles.",
     "bounds": {"quick": "N<=4 statements, <=2 sources, T=3 (T=2 for N=4), all 4!/3!/2! orders",
-               "thorough": "N<=5 statements, <=3 sources, T=3, all orders"},
+               "thorough": "N<=4 statements over the full alphabet, <=3 sources, T=3, all orders; N=5 over {source, 1/2-input compute, accumulator, list reader, nested_} with <=2 sources, T=2, all 5! orders"},
     "min_counters": {"quick": {"nontrivial": 10000, "graphx.cycle_cases": 20, "graphx.runs_with_nested_evaluations": 1000}},
     "assumptions": COMMON_ASSUMPTIONS + [
         "Programs larger than the bound, service/adaptor rank anchors and mesh are not explored.",
@@ -229,7 +229,8 @@ CHECKS["C04"] = {
                  "with a reference write log and consumers compared with the producer",
     "design_ref": "DESIGN.md 2/C04",
     "parts": [{"name": "flags", "exe": "c05_coll", "sources": ["c05_coll.cpp"], "sub": "c04", "shards": {"quick": 16, "thorough": 256}},
-              {"name": "forward", "exe": "c04_forward", "sources": ["c04_forward.cpp"], "shards": 16}],
+              {"name": "forward", "exe": "c04_forward", "sources": ["c04_forward.cpp"], "shards": 16},
+              {"name": "activity", "exe": "c04_activity", "sources": ["c04_activity.cpp"], "shards": {"quick": 16, "thorough": 64}}],
     "rule": _COLL_RULE + "Oracle (C04), evaluated in every cycle (written or not): modified is true iff the reference performed an effective write in "
             "that cycle (false when nothing was written); valid from the first write until an explicit invalidation; last_modified_time equals the "
             "latest cycle in which modified was true; both passive consumers equal the producer on value, modified, valid, all_valid and "
@@ -240,7 +241,11 @@ CHECKS["C04"] = {
             "positions outer.d and outer.l; two inputs bound to outer and one bound to the forwarding output; every history of <= 2 operations per cycle "
             "from {set / erase a key through the forwarding output, set a list element through it, direct writes to d, l, x, nothing}; after every "
             "cycle modified / valid / last-modified-time of d, l, x, of their PARENT and of every consumer must equal the reference (a child written "
-            "through the link marks the target's ancestors). Erasing an absent key leaves the dictionary's and the parent's time open until their next write.",
+            "through the link marks the target's ancestors). Erasing an absent key leaves the dictionary's and the parent's time open until their next write. "
+            "activity part (graph level): a NON-PEERED list / bundle input assembled on the consumer side ({a, b}, to_tsl, to_tsb) from two independent "
+            "producers; the consumer runs a script of subscription operations (make_active / make_passive of element 0, element 1 or the whole input, "
+            "at most K per script) and, woken every cycle by a step input, compares each element with what its producer wrote and the parent's "
+            "modified / valid / last-modified-time with what its elements report; every tick pattern of both producers over T cycles x every script.",
     "bounds": {"quick": "as C05 quick", "thorough": "as C05 thorough"},
     "min_counters": {"quick": {"nontrivial": 100000, "states": 5000, "flags.cases_ts": 10000}},
     "assumptions": COMMON_ASSUMPTIONS + [
